@@ -318,6 +318,56 @@ func init() {
 		}
 		sb.WriteString("def flatRebuildCalls : List String := " + LeanStrList(rc) + "\n\n")
 
+		// --- ingestion/influx/parser.go: the delimiter sets of the escape codes, the scanner, the unescapers
+		fsetI, ip, err := ParseFile(repo, "ingestion/influx/parser.go")
+		if err != nil {
+			return "", err
+		}
+		codes := map[string][]int64{}
+		for _, d := range ip.Decls {
+			gd, ok := d.(*ast.GenDecl)
+			if !ok || gd.Tok != token.VAR {
+				continue
+			}
+			for _, sp := range gd.Specs {
+				vs := sp.(*ast.ValueSpec)
+				for i, nm := range vs.Names {
+					if i >= len(vs.Values) || (nm.Name != "tagEscapeCodes" && nm.Name != "metricNameEscapeCodes") {
+						continue
+					}
+					ast.Inspect(vs.Values[i], func(n ast.Node) bool {
+						if kv, ok := n.(*ast.KeyValueExpr); ok {
+							if id, ok := kv.Key.(*ast.Ident); ok && id.Name == "k" {
+								if cl, ok := kv.Value.(*ast.CompositeLit); ok && len(cl.Elts) == 1 {
+									if v, ok := evalInt(cl.Elts[0], nil, 0); ok {
+										codes[nm.Name] = append(codes[nm.Name], v)
+									}
+								}
+							}
+						}
+						return true
+					})
+				}
+			}
+		}
+		for _, nm := range []string{"metricNameEscapeCodes", "tagEscapeCodes"} {
+			if len(codes[nm]) == 0 {
+				return "", fmt.Errorf("%s not found in ingestion/influx/parser.go", nm)
+			}
+			q := make([]string, len(codes[nm]))
+			for i, v := range codes[nm] {
+				q[i] = fmt.Sprintf("Char.ofNat %d", v)
+			}
+			fmt.Fprintf(&sb, "/-- the characters escaped with a backslash (`k` of %s, in pass order) -/\ndef influx%s%s : List Char := [%s]\n\n", nm, strings.ToUpper(nm[:1]), nm[1:], strings.Join(q, ", "))
+		}
+		for _, f := range [][2]string{{"walkToUnescapedChar", "influxWalkToUnescapedCharSrc"}, {"unescapeTag", "influxUnescapeTagSrc"}, {"unescapeMetricName", "influxUnescapeMetricNameSrc"}} {
+			s, err := c16BodySrc(fsetI, FindFunc(ip, "", f[0]))
+			if err != nil {
+				return "", fmt.Errorf("%s: %w", f[0], err)
+			}
+			def(f[1], s)
+		}
+
 		// --- models/limits.go
 		fsetL, lm, err := ParseFile(repo, "models/limits.go")
 		if err != nil {
